@@ -462,3 +462,39 @@ def r_repr(ctx):
     rs = [r for r in g.stmts(ast.Raise)]
     run.check(any(_exc_type(g, r) == 'ValueError' for r in rs), 'R-REPR', g, 'format-guard', g.node.lineno,
               'malformed accessor raises ValueError', 'no ValueError format guard', nontrivial=False)
+
+
+def r_max(ctx):
+    """remove_nasty_arc removes an arc whose score is the global maximum"""
+    run = ctx.run
+    run.rule('R-MAX', "remove_nasty_arc: the removed arc's row is drawn from where(scores == max(scores)) over the score array "
+                      "returned by calculate_intersection_score for the same latter map and flags, and its column is "
+                      "argmax(scores[row]) of the same array")
+    f = ctx.p.func('dsw.spiderweb.remove_nasty_arc')
+    stores = [(nd, tg) for nd, d, tg, v in acc_stores(ctx, f) if v == ('c', -1) and tg[0] == 'sub' and tg[1][0] == 'sub']
+    if not stores:
+        raise AnalysisError("rule R-MAX lost its anchor: cleared accessor entry")
+    nd, tg = stores[0]
+    row, col = tg[1][2], tg[2]
+    scores = None
+    # column = argmax(S[row])
+    c0 = strip_int(col)
+    okc = is_call(c0, 'numpy.argmax') and len(c0[2]) == 1 and c0[2][0][0] == 'sub' and strip_int(c0[2][0][2]) == strip_int(row)
+    if okc:
+        scores = c0[2][0][1]
+    run.check(okc, 'R-MAX', f, 'column=argmax(scores[row])', nd.lineno, 'column is the argmax of the chosen row',
+              'the cleared column is %s, not argmax(scores[row]) of the chosen row' % show(col)[:80], inputs='every call')
+    okscore = scores is not None and call_name(scores) is not None and call_name(scores).endswith('.calculate_intersection_score') \
+        and call_arg(scores, 0, 'latter_map') == ('v', 'latter_map', 'P')
+    run.check(bool(okscore), 'R-MAX', f, 'scores-of-this-graph', nd.lineno, 'scores come from calculate_intersection_score(latter_map, ...)',
+              'the scores the removed arc is chosen from are %s' % (show(scores)[:80] if scores else None), inputs='every call')
+    # row drawn from the rows holding the global maximum
+    okr = False
+    for x in walk_term(row):
+        if x[0] == 'cmp' and x[1] == '==' and scores is not None:
+            for a, b in ((x[2], x[3]), (x[3], x[2])):
+                if a == scores and is_call(b, 'numpy.max', 'numpy.amax') and b[2] == (scores,) and not b[3]:
+                    okr = True
+    run.check(okr, 'R-MAX', f, 'row-among-global-maxima', nd.lineno, 'row is taken from where(scores == max(scores))',
+              'the row of the removed arc (%s) is not drawn from the positions where the score equals the global maximum'
+              % show(row)[:100], inputs='graphs whose maximum is not in the chosen row')
